@@ -93,6 +93,11 @@ SKIPPED = [
     "DELETE FROM {t} WHERE {a} = 1;",
     "go",
     "use {s};",
+    # T-SQL style: no ';' after the DML statement
+    "INSERT INTO {t} VALUES (1, 2)",
+    "INSERT INTO {t} ({a}) VALUES (1)\nGO",
+    "DELETE FROM {t}",
+    "GRANT SELECT ON {t} TO {u}",
 ]
 
 
@@ -245,7 +250,7 @@ def block(draw, kinds=BLOCK_KINDS, small=True):
         c = draw(xtable())
     else:  # like
         c = {"schema": draw(st.one_of(st.none(), gen.plain_ident())), "name": draw(gen.plain_ident(min_len=2)),
-             "src": draw(gen.plain_ident(min_len=2)), "paren": draw(st.booleans())}
+             "src": draw(gen.plain_ident(min_len=2)), "paren": draw(st.booleans()), "alter_add": draw(st.integers(0, 2)) == 0}
     if isinstance(c, dict):
         c.pop("layout", None)
     return {"k": k, "c": c}
@@ -298,7 +303,11 @@ def statements(b, index=0, set_tokens=False):
     if k == "like":
         src = [I(c["src"])]
         body = ([LP] + K("LIKE") + src + [RP]) if c["paren"] else (K("LIKE") + src)
-        return [K("CREATE", "TABLE") + [I((c["schema"] + "." if c["schema"] else "") + c["name"])] + body + [END]]
+        full = (c["schema"] + "." if c["schema"] else "") + "%s_l%d" % (c["name"], index)
+        out = [K("CREATE", "TABLE") + [I(full)] + body + [END]]
+        if c.get("alter_add"):  # a column added to a table that was created without a column list of its own
+            out.append(K("ALTER", "TABLE") + [I(full)] + K("ADD") + [I("added_col"), T("int"), END])
+        return out
     raise ValueError(k)
 
 
